@@ -505,6 +505,15 @@ func c06Files(c *Ctx) {
 							names["a read-only file whose name has blanks and non-ASCII letters"] = odd
 						}
 						names["a path with ./, // and .. in it"] = sub + "/.//../" + filepath.Base(sub) + "/../" + filepath.Base(tgt.path)
+						// ".." after a symbolic link to a directory elsewhere: the operating system follows the link first, so
+						// sub/cur/../x names the sibling of the link's TARGET (store/x), not sub/x — where a decoy lies
+						store := filepath.Join(sub, "store"+tgt.ext+".d")
+						if os.MkdirAll(filepath.Join(store, "run1"), 0o755) == nil && os.Symlink(filepath.Join(store, "run1"), filepath.Join(sub, "cur"+tgt.ext+".d")) == nil {
+							if data, err := os.ReadFile(tgt.path); err == nil && os.WriteFile(filepath.Join(store, "ref"+tgt.ext), data, 0o644) == nil {
+								os.WriteFile(filepath.Join(sub, "ref"+tgt.ext), []byte("a decoy: not the records of the file\n"), 0o644)
+								names["a path that goes up (..) from a symbolic link to a directory elsewhere"] = filepath.Join(sub, "cur"+tgt.ext+".d") + "/../ref" + tgt.ext
+							}
+						}
 						if tgt.path == plain {
 							for _, e := range []string{"", ".txt", ".bam", ".cram", ".dat", ".vcf", ".SAM", ".1"} {
 								other := filepath.Join(sub, "named"+e)
